@@ -14,7 +14,7 @@ MANIFEST = dict(
     technique="Lean 4 proof over a hand-written model + differential correspondence run with real witness child processes",
     design="5/C20",
 )
-GEN: list[str] = []
+GEN: list[str] = ["HostEnv", "Cli", "Legacy"]
 THEOREMS = [
     "c20_load_configured",
     "c20_launch_exact",
@@ -27,6 +27,10 @@ THEOREMS = [
     "c20_path_command_verbatim",
     "c20_executable_independent_of_host",
     "c20_unresolvable_not_launched",
+    "c20_host_translated", "c20_default_env_sound", "c20_default_env_complete", "c20_nothing_else_leaks",
+    "c20_child_env_exact", "c20_cli_defaults", "c20_cli_value_option", "c20_cli_flags", "c20_cli_missing_value",
+    "c20_cli_discovery_first", "c20_cli_discovery_none", "c20_cli_decision", "c20_cli_nothing_launched",
+    "c20_cli_launch_exact", "c20_legacy_translated", "c20_legacy_aliases_same_object",
 ]
 RULE = (
     "generated configuration documents (1..4 servers; every 5th document uses BARE command names: copies of one witness "
@@ -166,6 +170,10 @@ def decorate(rng, case):
         if us != "absent":
             c["user_specified"] = {"none": None, "empty": [], "first": c["names"][:1], "all": list(c["names"]),
                                    "ghost": ["ghost"]}[us]
+    if e == "loader" and rng.random() < 0.4:
+        c["legacy"] = rng.choice(["names", "modules", "transport", "asyncgen"])
+    if e == "runner" and rng.random() < 0.3:
+        c["legacy"] = "names"
     if rng.random() < 0.12 and c["expect"] == "valid":
         c["repeat"] = 2
     if rng.random() < 0.15:
@@ -411,6 +419,9 @@ class Entry(Suite):
             out.append({"entry": "cliMain", "file": "ok", "doc": d0, "names": ["sqlite"], "expect": "valid", "main_mode": mode,
                         "cfgname": "server_config.json" if mode == "discover" else "config.json", "verbose": mode == "short",
                         "witness_mode": WITNESS_MODES[2 + (mode == "short")]})
+        for lg in ("names", "modules", "transport", "asyncgen"):
+            out.append({"entry": "loader", "file": "ok", "doc": d1, "names": ["b"], "expect": "valid", "legacy": lg})
+        out.append({"entry": "runner", "file": "ok", "doc": d3, "names": ["p", "q"], "expect": "valid", "legacy": "names"})
         for cf in ("interactive_mode", "chat_run", "raises"):
             out.append({"entry": "runner", "file": "ok", "doc": d3, "names": ["q", "p", "r"], "expect": "valid", "cmdfunc": cf,
                         "user_specified": ["p"], "repeat": 2 if cf == "chat_run" else 1})
@@ -429,7 +440,7 @@ class Entry(Suite):
                 out += [decorate(rng, c) for c in malformed_cases(rng, doc)]
         cov = {}
         for c in out:
-            for k in ("style", "cfgname", "main_mode", "cmdfunc", "verbose", "repeat"):
+            for k in ("style", "cfgname", "main_mode", "cmdfunc", "verbose", "repeat", "legacy"):
                 if k in c:
                     cov[f"{k}={c[k]}"] = cov.get(f"{k}={c[k]}", 0) + 1
             if "witness_mode" in c:
@@ -584,7 +595,7 @@ class Entry(Suite):
         return case["expect"] == "valid"
 
     def shrink_candidates(self, case):
-        for k in ("host_env", "repeat", "witness_mode", "verbose", "user_specified", "cmdfunc", "style", "cfgname", "cfgdir"):
+        for k in ("legacy", "host_env", "repeat", "witness_mode", "verbose", "user_specified", "cmdfunc", "style", "cfgname", "cfgdir"):
             if k in case and not (k == "cfgname" and case.get("main_mode") == "discover"):
                 yield {a: b for a, b in case.items() if a != k}
         if case.get("main_mode") not in (None, "explicit"):
@@ -634,5 +645,259 @@ class Entry(Suite):
                     yield with_doc(dict(doc, mcpServers=d2), ["s" if x == n else x for x in case["names"]])
 
 
+# =============================================================================== supplementary: the default environment
+INHERITABLE = ["HOME", "LOGNAME", "PATH", "SHELL", "TERM", "USER", "APPDATA", "HOMEDRIVE", "HOMEPATH", "LOCALAPPDATA",
+               "PROCESSOR_ARCHITECTURE", "SYSTEMDRIVE", "SYSTEMROOT", "TEMP", "USERNAME", "USERPROFILE"]
+DECOYS = ["HOMEX", "Path", "path", "home", "PATH ", "LD_PRELOAD", "PYTHONPATH", "VERIF_SECRET", "AWS_SECRET_ACCESS_KEY",
+          "LANG", "LC_ALL", "PWD", "_", "SHLVL", "TERMINFO", "USER_NAME", "LOG_LEVEL", "0", "ENV"]
+PARENT_VALS = ["x", "/root", "/usr/bin:/bin", "", " ", "()", "() { :; }; echo pwned", " ()", "(", "(x)", "a()", "0",
+               "false", "%s {0}", "ü\u2028", "x" * 5000, "=", "a=b"]
+
+
+class HostEnv(Suite):
+    """`get_default_environment()` against `Model.Host.defaultEnv` (name lists regenerated from the source).
+    SUPPLEMENTARY: what the library's default environment contains is the library's definition, not part of the
+    property text; a difference here is reported in the evidence notes, not as a violation."""
+    name = "hostenv"
+
+    def __init__(self):
+        self.mismatches = []
+
+    def cases(self, ctx, budget):
+        rng = ctx.sub_rng("c20-hostenv", budget)
+        n = {"quick": 300, "thorough": 6000, "search": 600}[budget]
+        out = [{"parent": {}, "win32": False}, {"parent": {}, "win32": True},
+               {"parent": {k: "v" for k in INHERITABLE + DECOYS}, "win32": False},
+               {"parent": {k: "v" for k in INHERITABLE + DECOYS}, "win32": True}]
+        for v in PARENT_VALS:
+            out.append({"parent": {k: v for k in INHERITABLE}, "win32": False})
+        for _ in range(n):
+            names = rng.sample(INHERITABLE, rng.randint(0, len(INHERITABLE))) + rng.sample(DECOYS, rng.randint(0, 6))
+            out.append({"parent": {k: rng.choice(PARENT_VALS) for k in names}, "win32": rng.random() < 0.3})
+        return out
+
+    def impl_batch(self, cases):
+        return H.run_hostenv_cases(cases)
+
+    def model_line(self, case):
+        return {"m": "host", "op": "env", "win32": bool(case.get("win32")), "parent": case["parent"]}
+
+    def compare(self, case, o, m):
+        if o["env"] != m["env"] and len(self.mismatches) < 5:
+            self.mismatches.append({"case": case, "impl": o, "model": m})
+        return None
+
+    def kind(self, case, o):
+        e = o.get("env") or {}
+        barred = any(v.startswith("()") for v in case["parent"].values())
+        return f"hostenv/{'win32' if case.get('win32') else 'posix'}/inherits{min(len(e), 3)}{'+' if len(e) > 3 else ''}{'/barred' if barred else ''}"
+
+    def nontrivial(self, case, o):
+        return bool(case["parent"])
+
+
+# =============================================================================== supplementary: the command line
+CLI_DEFAULT_LOCS = ["cwd:server_config.json", "cwd:mcp_config.json", "cwd:config.json", "home:.config/mcp/config.json",
+                    "home:.mcp_config.json"]
+CLI_ABS = ["abs:custom.json", "abs:my conf.json", "abs:conf %s {0}.json", "abs:sub/dir/c.json"]
+CLI_SERVERS = ["sqlite", "db", "my server", "服务", "0", "server", "config", "x=y", "a b=c"]
+
+
+def _cli_doc(names, w0):
+    return {"mcpServers": {n: {"command": f"@W{w0 + i}", "args": [n]} for i, n in enumerate(names)}}
+
+
+def gen_cli_case(rng):
+    present, w = {}, 0
+    locs = rng.sample(CLI_DEFAULT_LOCS, rng.choice([0, 1, 1, 2, 3])) + rng.sample(CLI_ABS, rng.choice([1, 2]))
+    names = ["sqlite"] + rng.sample(CLI_SERVERS[1:], 2)
+    for loc in locs:
+        present[loc] = _cli_doc(names, w)
+        w += len(names)
+    abs_locs = [l for l in locs if l.startswith("abs:")]
+    intent_cfg = rng.choice(abs_locs + [None, None])
+    intent_srv = rng.choice(names + [None])
+    toks = []
+
+    def opt(name, value):
+        form = rng.choice(["long", "short", "eq"])
+        long_, short = {"config": ("--config", "-c"), "server": ("--server", "-s")}[name]
+        if form == "eq":
+            return [f"{long_}={value}"]
+        return [long_ if form == "long" else short, value]
+
+    groups = []
+    # earlier occurrences that a later one overrides
+    for _ in range(rng.choice([0, 0, 1, 2])):
+        groups.append(opt("server", rng.choice(names + ["ghost"])))
+    for _ in range(rng.choice([0, 0, 1])):
+        groups.append(opt("config", "@ABS/" + rng.choice(CLI_ABS).split(":", 1)[1]))
+    rng.shuffle(groups)
+    final = []
+    if intent_cfg is not None:
+        final.append(opt("config", "@ABS/" + intent_cfg.split(":", 1)[1]))
+    elif any(g[0].startswith(("--config", "-c")) for g in groups) or rng.random() < 0.2:
+        final.append(opt("config", ""))                       # an empty --config: back to discovery
+    if intent_srv is not None:
+        final.append(opt("server", intent_srv))
+    elif any(g[0].startswith(("--server", "-s")) for g in groups):
+        intent_srv = "sqlite"
+        final.append(opt("server", "sqlite"))
+    rng.shuffle(final)
+    for g in groups + final:
+        toks += g
+    flags = []
+    if rng.random() < 0.3:
+        flags.append(rng.choice(["-v", "--verbose"]))
+    listing = rng.random() < 0.12
+    if listing:
+        flags.append(rng.choice(["-l", "--list-servers"]))
+    for f in flags:
+        toks.insert(rng.randint(0, len(toks)) if not toks else rng.choice([0, len(toks)]), f)
+    broken = None
+    r = rng.random()
+    if r < 0.06:
+        toks.append(rng.choice(["--server", "-c"]))
+        broken = "missing-value"
+    elif r < 0.10:
+        toks.insert(0, rng.choice(["--frobnicate", "positional", "--server-name=x"]))
+        broken = "unknown"
+    return {"argv": toks, "present": present,
+            "intent": {"config": intent_cfg, "server": intent_srv or "sqlite", "list": listing, "broken": broken}}
+
+
+class Cli(Suite):
+    """`__main__.main()` driven through `sys.argv` in a scratch cwd / HOME, against `Model.Host.act` + `cliLaunch`
+    (option table, defaults and default locations regenerated from the source)."""
+    name = "cli"
+
+    def __init__(self):
+        self.mismatches = []
+
+    def cases(self, ctx, budget):
+        rng = ctx.sub_rng("c20-cli", budget)
+        doc = _cli_doc(["sqlite", "db"], 0)
+        out = [
+            {"argv": [], "present": {"cwd:config.json": doc, "home:.mcp_config.json": _cli_doc(["sqlite", "db"], 2)},
+             "intent": {"config": None, "server": "sqlite", "list": False, "broken": None}},
+            {"argv": ["--server", "db"], "present": {l: _cli_doc(["sqlite", "db"], 2 * i) for i, l in enumerate(CLI_DEFAULT_LOCS)},
+             "intent": {"config": None, "server": "db", "list": False, "broken": None}},
+            {"argv": ["-s", "db"], "present": {"home:.mcp_config.json": doc, "home:.config/mcp/config.json": _cli_doc(["sqlite", "db"], 2)},
+             "intent": {"config": None, "server": "db", "list": False, "broken": None}},
+            {"argv": ["--server", "db"], "present": {"abs:custom.json": doc},
+             "intent": {"config": None, "server": "db", "list": False, "broken": None}},          # nothing to discover
+            {"argv": ["-c", "@ABS/custom.json", "--config", "", "-s", "db"], "present": {"abs:custom.json": doc, "cwd:mcp_config.json": _cli_doc(["db"], 2)},
+             "intent": {"config": None, "server": "db", "list": False, "broken": None}},
+            {"argv": ["--config=@ABS/my conf.json", "--server=my server", "-v"], "present": {"abs:my conf.json": _cli_doc(["my server"], 0)},
+             "intent": {"config": "abs:my conf.json", "server": "my server", "list": False, "broken": None}},
+            {"argv": ["-l", "-c", "@ABS/custom.json"], "present": {"abs:custom.json": doc},
+             "intent": {"config": "abs:custom.json", "server": "sqlite", "list": True, "broken": None}},
+            {"argv": ["-c", "@ABS/custom.json", "-s", "nope"], "present": {"abs:custom.json": doc},
+             "intent": {"config": "abs:custom.json", "server": "nope", "list": False, "broken": None}},
+            {"argv": ["-c", "@ABS/custom.json"], "present": {"abs:custom.json": None},
+             "intent": {"config": "abs:custom.json", "server": "sqlite", "list": False, "broken": None}},
+        ]
+        listing = {"config": "abs:custom.json", "server": "sqlite", "list": True, "broken": None}
+        out += [
+            {"argv": ["-l", "-c", "@ABS/custom.json"], "present": {"abs:custom.json": None}, "intent": listing},          # not JSON
+            {"argv": ["--list-servers", "--config", "@ABS/custom.json"], "present": {"abs:my conf.json": doc}, "intent": listing},  # missing
+            {"argv": ["-l", "-c", "@ABS/custom.json"], "present": {"abs:custom.json": {"mcpServers": {}}}, "intent": listing},
+            {"argv": ["-l", "-c", "@ABS/custom.json"], "present": {"abs:custom.json": {"servers": 1}}, "intent": listing},
+        ]
+        n = {"quick": 40, "thorough": 600, "search": 150}[budget]
+        out += [gen_cli_case(rng) for _ in range(n)]
+        for i, c in enumerate(out):
+            if i % 2:
+                c["via"] = "run"
+        return out
+
+    def impl_batch(self, cases):
+        obs = H.run_cli_cases(cases)
+        self._last = {id(c): o for c, o in zip(cases, obs)}
+        return obs
+
+    def model_line(self, case):
+        o = getattr(self, "_last", {}).get(id(case))
+        if o is None:
+            return None
+        docs, files = {}, []
+        for loc, doc in case["present"].items():
+            docs[H._cli_model_path(loc)] = None if doc is None else model_doc(doc)
+            files += [f"@D{i}/witness" for i in H.placeholders(doc or {})]
+        return {"m": "host", "op": "cli", "argv": case["argv"], "existing": list(docs), "home": "@HOME", "docs": docs,
+                "dflt": o["default_env"], "files": files}
+
+    def compare(self, case, o, m):
+        a = sorted(_launch_key(l) for l in o["launches"])
+        b = sorted(_launch_key({"cmd": _model_cmd(l["argv"][0]), "argv": l["argv"][1:], "env": l["env"]}) for l in m["launches"])
+        want_exit = {"usage": [2], "no-config": [1], "list": ["returned", 0, 1], "test": [0, 1]}[m["action"]]
+        if a != b:
+            return "launches differ"
+        if o["exit"] not in want_exit and len(self.mismatches) < 5:
+            self.mismatches.append({"case": case, "exit": o["exit"], "model": m["action"]})   # exit status: informational
+        return None
+
+    def oracle(self, case, o):
+        it = case["intent"]
+        got = o["launches"]
+        if it["broken"] or it["list"]:
+            if got:
+                return ("cli-launch-without-request", f"command line {case['argv']!r} "
+                        f"({'malformed' if it['broken'] else 'asks for the server list'}) launched {[l['cmd'] for l in got]}", {"launches": []})
+            return None
+        if it["config"] is not None:
+            cands = [it["config"]]
+        else:
+            cands = [l for l in case["present"] if not l.startswith("abs:")]
+        allowed = []
+        for loc in cands:
+            sc = (case["present"].get(loc) or {}).get("mcpServers", {}).get(it["server"])
+            if sc:
+                allowed.append({"cmd": sc["command"], "argv": sc.get("args", [])})
+        if not got:
+            # the selected file may be one that lacks the server (discovery takes ONE location): only an explicit
+            # configuration that has the server must launch it
+            if it["config"] is not None and allowed:
+                return ("cli-not-launched", f"command line {case['argv']!r}: server {it['server']!r} of {it['config']} was not launched "
+                        f"(exit {o['exit']})", {"launches": allowed})
+            return None
+        if len(got) > 1 or {"cmd": got[0]["cmd"], "argv": got[0]["argv"]} not in allowed:
+            return ("cli-wrong-launch", f"command line {case['argv']!r} names server {it['server']!r} in "
+                    f"{it['config'] or 'a default location'}; launched {[(l['cmd'], l['argv']) for l in got]}", {"launches": allowed})
+        return None
+
+    def kind(self, case, o):
+        it = case["intent"]
+        forms = "".join(sorted({("e" if "=" in t and t.startswith("--") else "l" if t.startswith("--") else "s")
+                                for t in case["argv"] if t.startswith("-") and len(t) > 1}))
+        what = "broken-" + it["broken"] if it["broken"] else "list" if it["list"] else             ("explicit" if it["config"] else "discover%d" % sum(1 for l in case["present"] if not l.startswith("abs:")))
+        return f"cli/{what}/forms-{forms or 'none'}/exit-{o['exit']}"
+
+    def nontrivial(self, case, o):
+        return bool(case["argv"])
+
+    def shrink_candidates(self, case):
+        argv = case["argv"]
+        for i in range(len(argv)):
+            yield dict(case, argv=argv[:i] + argv[i + 1:])
+        for loc in list(case["present"]):
+            yield dict(case, present={k: v for k, v in case["present"].items() if k != loc})
+
+
+_SUPP: list = []
+
+
+def extra(ctx, tier):
+    """supplementary correspondences: differences are informational (evidence notes), see EXTEND rule 3"""
+    for s in _SUPP:
+        n = len(getattr(s, "mismatches", []))
+        if n and tier != "search":
+            print(f"# C20 supplementary correspondence '{s.name}' differs from the model on {n}+ input(s) (informational): "
+                  + canon(s.mismatches[0])[:300])
+        ctx.notes.append(f"supplementary correspondence '{s.name}': {n} difference(s) between implementation and model"
+                         + (": " + canon(s.mismatches[0])[:600] if n else ""))
+
+
 def suites():
-    return [Entry()]
+    _SUPP[:] = [HostEnv(), Cli()]
+    return [Entry()] + _SUPP
